@@ -4,7 +4,7 @@
    kinds with reserved bytes (mvhd tkhd sidx mdhd hdlr tenc smhd tfra avcC colr elng, Visual/AudioSampleEntry)
    the decoder is replayed on the new bytes.  Every kind also fills exactly Size() bytes (C01SizeProofs). *)
 From V.lib Require Import Base.
-From V.c01 Require Import C01Codec C01Model C01LeafProofs C01Leaf2Proofs C01Leaf3Proofs C01Leaf4Proofs C01Leaf5Proofs
+From V.c01 Require Import C01Codec C01Model C01LeafProofs C01Leaf2Proofs C01Leaf3Proofs C01Leaf4Proofs C01Leaf5Proofs C01Leaf6Proofs
   C01TableProofs C01TreeProofs C01SizeProofs C01LocalProofs C01EsdsProofs C01SgpdProofs.
 
 (* the header seen at decode is the one the encoder writes (what exact_box asks of a leaf) *)
@@ -887,13 +887,24 @@ Proof.
   intros r3. unfold dec_wvtt. repeat rewrite <- app_assoc. rp. reflexivity.
 Qed.
 
+(* dac3, dec3: the whole payload is read, then a pure function of it decides (C01Leaf6Proofs) *)
+Lemma whole_stable f nm : whole_ok f nm -> leaf_stable (dec_whole f).
+Proof.
+  intros Hf h r l rsv r' Hok Hnm H G _ _. destruct (whole_run _ _ _ _ _ _ Hok H) as (d & -> & Hl & Hd & Hr' & Ef & ->).
+  destruct (Hf _ _ Hd Ef) as (_ & Hdf & Hlg & Hb). destruct (Hb G) as [Hb1 Hs].
+  unfold stable_concl. rewrite Hdf, Hlg. exists d. split; [exact Hb1|]. split; [now rewrite lenN_app|]. split; [lia|].
+  intros r2. unfold dec_whole, pbind. rewrite rdB_lit by exact Hl. now rewrite Ef.
+Qed.
+Lemma stable_dac3 : leaf_stable dec_dac3. Proof. exact (whole_stable _ _ dac3_ok). Qed.
+Lemma stable_dec3 : leaf_stable dec_dec3. Proof. exact (whole_stable _ _ dec3_ok). Qed.
+
 Lemma pstable_fullonly : pre_stable dec_fullonly.
 Proof. apply pre_stable_of_local; [exact lossless_fullonly|exact local_fullonly|exact norsv_fullonly|exact psized_fullonly]. Qed.
 
 Lemma leaf_table_stable : Forall (fun e => leaf_stable (snd e)) leaf_table.
 Proof.
   unfold leaf_table. repeat apply Forall_cons; try apply Forall_nil; cbn [snd];
-    first [ exact stable_ftyp | exact stable_free | exact stable_empty | exact stable_b4 | exact stable_data | exact stable_mime | exact stable_mdat | exact stable_mfhd | exact stable_tfhd
+    first [ exact stable_ftyp | exact stable_free | exact stable_empty | exact stable_b4 | exact stable_data | exact stable_mime | exact stable_dac3 | exact stable_dec3 | exact stable_mdat | exact stable_mfhd | exact stable_tfhd
           | exact stable_tfdt | exact stable_trun | exact (pre_leaf_stable _ pstable_mvhd)
           | exact (pre_leaf_stable _ pstable_tkhd) | exact (pre_leaf_stable _ pstable_sidx) | exact stable_trex
           | exact (pre_leaf_stable _ pstable_mdhd) | exact (pre_leaf_stable _ pstable_hdlr) | exact stable_stts
